@@ -99,7 +99,9 @@ def run(ck: vlib.Check):
     for f in findings:
         if f["key"] == "two-switches-one-index":
             outs = {json.dumps(one(0, h, h, script=F18), sort_keys=True) for h in range(8)}
-            if len(outs) > 1:
+            outs_bare = {json.dumps(one(1, h, h, script=F18), sort_keys=True) for h in range(12)}
+            ck.extra["two_switches_one_index_witnesses"] = {"two authored names": sorted(outs), "bare index reference to a named switch": sorted(outs_bare)}
+            if len(outs) > 1 or len(outs_bare) > 1:
                 ck.known(f"key={f['key']} {f['text']}")
 
 
